@@ -113,6 +113,15 @@ def a1(ctx):
         if role_mentions_call(sr, "make"):
             n_make += 1
             _both_queues_on_change(ctx, crate, b, bi, None, key, store_stmt=s)
+            # make() is applied to the e-node this update is about: the node parameter of the updater, not some other node of the class
+            node_params = [root.var_names.get(l) for l in range(1, root.argc + 1) if root.local_ty(l).lstrip("&").strip() == "L"]
+            for x in role_walk(sr):
+                if isinstance(x, tuple) and x[0] == "call" and x[1] == "make" and len(x[3]) >= 2:
+                    arg = x[3][-1]
+                    ok_n = any(role_mentions_param(arg, p_) for p_ in node_params if p_) and not role_mentions_field(arg, "syn_enode") and not role_mentions_field(arg, "nodes")
+                    ctx.check(ok_n, "make-of-the-handled-node:" + key, "the datum is re-made from the e-node the update was requested for",
+                              "%s re-makes the datum from %s instead of the e-node it was called for: the class's datum stops being the join over ALL its e-nodes (nodes added by a union or by congruence never contribute)" % (C.short(root.id), role_str(arg)[:80]),
+                              where_of(b, bi, s.get("line")))
     ctx.floor("merge(old, make(node)) updaters", n_make, 1)
 
 
